@@ -158,3 +158,7 @@ pub assume_specification[ i64::unsigned_abs ](x: i64) -> (r: u64)
     ensures r as int == (if x < 0 { -(x as int) } else { x as int });
 pub assume_specification[ i128::unsigned_abs ](x: i128) -> (r: u128)
     ensures r as int == (if x < 0 { -(x as int) } else { x as int });
+
+//@ assume std::u64::wrapping_neg : std documentation: wrapping (modular) negation, 0 - self modulo 2^64
+pub assume_specification[ u64::wrapping_neg ](x: u64) -> (r: u64)
+    ensures r as int == (if x == 0 { 0int } else { 0x1_0000_0000_0000_0000 - (x as int) });
